@@ -1,5 +1,6 @@
 import KV.Eval
 import KV.PlanLemmas
+import KV.Value
 /-! # C02 — injector result equals sequential evaluation of the declared graph
 
 Property statements only.  Values are Herbrand terms (`KV.Val`): providers are uninterpreted, so "equal
@@ -34,5 +35,29 @@ theorem C02_reads_written {provs : List PSpec} {ret : Nat} {p : PlanOut} (h : pl
     (hnp : ¬ isParamOf p.b v) : T1.written (emitted p) s v :=
   let ⟨hw, hd⟩ := plan_wf h
   T1.enter_after_writes hw hd hr hop hv hnp
+
+/-- **Result = sequential evaluation.**  For every accepted declaration the planned graph wires exactly one value
+    out of the node read by the final `return`, and that value is the (unique) reference evaluation of the
+    requested type over the supplier map of the declaration. -/
+theorem C02_result {provs0 : List PSpec} {ret : Nat} {p : PlanOut} {provs : List PSpec} {sup : SupMap}
+    (hp : plan provs0 ret = .ok p) (hs : supplierMap provs0 = .ok (provs, sup)) :
+    ∃ v, GraphVal p.g v ∧ Eval provs sup ret v ∧ (∀ v', GraphVal p.g v' → v' = v) ∧ (∀ v', Eval provs sup ret v' → v' = v) :=
+  plan_value_spec hp hs
+
+/-- **Async marking never changes the graph**: the planner builds the same nodes, edges and return slot (or fails
+    with the same error) for every Async marking of the providers. -/
+theorem C02_async_irrelevant (f : Nat → Bool) (provs0 : List PSpec) (ret : Nat) :
+    (∃ e, newGraph2 (setAsync f provs0) ret = .error e ∧ newGraph2 provs0 ret = .error e) ∨
+    (∃ g' g, newGraph2 (setAsync f provs0) ret = .ok g' ∧ newGraph2 provs0 ret = .ok g ∧
+      g'.nodes = g.nodes ∧ g'.edges = g.edges ∧ g'.rev = g.rev ∧ g'.retNode = g.retNode ∧ g'.retIdx = g.retIdx ∧
+      g'.provs.length = g.provs.length ∧ ∀ i, SameButAsync (g'.provs.getD i default) (g.provs.getD i default)) :=
+  async_irrelevant f provs0 ret
+
+/-- **Async marking never changes the value returned**: whatever the marking, the value wired by an accepted
+    plan is the reference evaluation of the unmarked declaration. -/
+theorem C02_async_value (f : Nat → Bool) {provs0 : List PSpec} {ret : Nat} {p' : PlanOut} {provs : List PSpec} {sup : SupMap}
+    (hp : plan (setAsync f provs0) ret = .ok p') (hs : supplierMap provs0 = .ok (provs, sup))
+    (v : Val) (hv : GraphVal p'.g v) : Eval provs sup ret v :=
+  plan_value_async f hp hs v hv
 
 end C02
